@@ -648,24 +648,38 @@ func (n *asNode) step(epochTick bool) (crashed string) {
 	return ""
 }
 
-func (n *asNode) startup(timeout time.Duration) error {
-	ctx, cancel := context.WithTimeout(bg, timeout)
+// startup runs the node's start-up prologue. The reconciliation retries until it succeeds or its context ends, so a
+// refusal is recognised by counting attempts, not by a wall-clock budget (which a busy machine would turn into false
+// refusals): it returns nil on success, the first error the node reported once at least minAttempts reconciliation
+// attempts have reached the model Agglayer, and an INCONCLUSIVE error if neither happens within 30 s.
+func (n *asNode) startup(m *mAgglayer, minAttempts int) error {
+	ctx, cancel := context.WithTimeout(bg, 30*time.Second)
 	defer cancel()
-	// the reconciliation retries until it succeeds or ctx ends; remember the first error it reports (the last one is
-	// usually just "context deadline exceeded")
+	attempts := func() int {
+		m.mu.Lock()
+		defer m.mu.Unlock()
+		return m.calls["GetLatestSettledCertificateHeader"]
+	}
+	base := attempts()
 	done := make(chan error, 1)
 	go func() { done <- n.a.VerifStartup(ctx) }()
 	first, stale := "", n.a.VerifLastError()
 	for {
 		select {
 		case err := <-done:
+			if ctx.Err() != nil && first == "" {
+				return fmt.Errorf("INCONCLUSIVE: start-up made %d reconciliation attempts in 30s and reported nothing", attempts()-base)
+			}
 			if err != nil && first != "" {
 				return errors.New(first)
 			}
 			return err
-		case <-time.After(500 * time.Microsecond):
-			if e := n.a.VerifLastError(); first == "" && e != stale {
+		case <-time.After(300 * time.Microsecond):
+			if e := n.a.VerifLastError(); first == "" && e != stale && e != "" {
 				first = e
+			}
+			if first != "" && attempts()-base > minAttempts {
+				cancel()
 			}
 		}
 	}
